@@ -46,7 +46,7 @@ def coverage_extra(tier, cov):
 
 
 def examples(tier):
-    return 5000 if tier == "quick" else 40000
+    return 5000 if tier == "quick" else 240000
 
 
 def wall_budget(tier):
